@@ -56,6 +56,7 @@ OTHERCHAN = '#d'
 # observation of the implementation
 # ------------------------------------------------------------------------------------------
 DEBUG = {}
+EXTRA_EVIDENCE = {}
 SITE_OUT = [None]
 FINDING_STATUS = {}
 class Obs(object):
@@ -521,7 +522,7 @@ def explore(ctx, b, w, table, required, n_extra):
     loaded = {}
     count = {}
     for cb in irc.callbacks:
-        if not hasattr(cb, 'listCommands'):
+        if not hasattr(cb, 'listCommands') or cb.name() == 'VtConv':
             continue
         for path, m in walk_commands(cb):
             loaded[(cb.name(), path)] = m
@@ -1048,6 +1049,38 @@ def explore(ctx, b, w, table, required, n_extra):
                 lines.append('ignored\t' + wire.enc(prefix))
                 pend.append((c, lambda o, ign: 'silent' if (o.startswith('1') or o.startswith('crash')) else 'ran'))
 
+    # ================= converters have no privileged side effects (every converter in commands.wrappers) =================
+    HOSTILE = [[], [CHAN], ['#zzz'], ['vown'], [ROLES['owner']], ['*!*@*'], ['Owner'], ['flush'], ['supybot.nick'], ['-1'], ['99999999999'],
+               ['http://x/'], ['s/a/b/'], ['m/./'], [NICK], ['a b'], [''], ['\x01'], [CHAN, 'cop'], ['global'], ['aa'], ['xxx'], ['1'], ['True']]
+    conv_effects = {}
+    for (ci, cname) in CONV_NAMES:
+        vecs = HOSTILE if ctx.thorough else [HOSTILE[(ci * 5 + j * 7 + ctx.seed) % len(HOSTILE)] for j in range(4)]
+        for vi, args in enumerate(vecs):
+            for who, tgt in ((('plain', CHAN), ('unreg', NICK), ('chanop', CHAN), ('secure', NICK)) if ctx.thorough else (('plain', CHAN), ('unreg', NICK))):
+                text = ('@' if tgt == CHAN else '') + 'cv%d %s' % (ci, ' '.join(quote(a) for a in args))
+                Obs.execute = None
+                del CONV_LOG[:]
+                before = snapshot(b)
+                out = deliver(b, ROLES[who], tgt, text)
+                changed = snap_diff(before, snapshot(b))
+                ran = bool(CONV_LOG)
+                ok = not changed and not ran
+                if changed:
+                    conv_effects.setdefault(cname, set()).update(changed)
+                cases.append(Case({'op': 'converter', 'converter': cname, 'prefix': ROLES[who], 'target': tgt, 'text': text}, oracle_ok=ok, kind='converter',
+                                  oracle_msg='' if ok else 'converter %r run for %s (who is then refused by the owner converter): state changed=%r, body ran=%r' % (cname, ROLES[who], changed, ran),
+                                  tags=['converter', 'conv:' + cname]))
+    # positive control: the probes are live (an owner gets through a harmless converter)
+    for (ci, cname) in CONV_NAMES:
+        if cname == 'anything':
+            del CONV_LOG[:]
+            Obs.execute = None
+            deliver(b, ROLES['owner'], NICK, 'cv%d foo' % ci)
+            cases.append(Case({'op': 'converter', 'converter': cname, 'control': True}, oracle_ok=bool(CONV_LOG), kind='converter',
+                              oracle_msg='control: the owner could not run the converter probe', tags=['converter', 'conv:control']))
+    EXTRA_EVIDENCE['converters_probed'] = [n for _, n in CONV_NAMES]
+    EXTRA_EVIDENCE['converters_with_state_change_on_refused_call'] = {k2: sorted(v2) for k2, v2 in conv_effects.items()}
+
     # ================= the other re-dispatch sites: Network.command, Scheduler.repeat, Admin.acmd, MessageParser =================
     FINDING_STATUS.clear()
     if 'VtGate' in have:
@@ -1395,6 +1428,36 @@ def fill_model(clp):
     return cases
 
 # ------------------------------------------------------------------------------------------
+CONV_LOG = []
+CONV_NAMES = []
+def make_vtconv(b):
+    """a run-time plugin with one command per converter registered in commands.wrappers (bundled ones and
+    those plugins added): spec [<converter>, 'owner'], so that for a caller who is not an owner the converter
+    runs and the call is then refused.  Used as an oracle that converters have no privileged side effects."""
+    from supybot import callbacks as cbs, commands, conf
+    if CONV_NAMES:
+        return
+    extra = {'literal': ('literal', ['aa', 'bb']), 'checkcapability': ('checkCapability', 'vt.special'),
+             'checkcapabilitybutignoreowner': ('checkCapabilityButIgnoreOwner', 'vt.strict'),
+             'checkchannelcapability': ('checkChannelCapability', 'vtcap'), 'matches': ('matches', re.compile('x+'), 'no match')}
+    conf.registerPlugin('VtConv')
+    ns = {'__doc__': 'converter probes of the /verif harness', '__module__': 'VtConv'}
+    for i, n in enumerate(sorted(commands.wrappers.keys())):
+        def mk(n, i):
+            def body(self, irc, msg, args, *a):
+                CONV_LOG.append(n)
+                irc.reply('vtconv %s ran' % n)
+            body.__doc__ = 'probe of the %s converter' % n
+            body.__name__ = 'cv%d' % i
+            return body
+        try:
+            ns['cv%d' % i] = commands.wrap(mk(n, i), [extra.get(n.lower(), n), 'owner'], name='cv%d' % i)
+            CONV_NAMES.append((i, n))
+        except Exception:
+            pass
+    klass = type('VtConv', (cbs.Plugin,), ns)
+    b.irc.addCallback(klass(b.irc))
+
 def boot(ctx):
     plugs = PLUGINS_QUICK
     if ctx.thorough:
@@ -1405,6 +1468,7 @@ def boot(ctx):
     install_shims(b)
     install_clock()
     w = setup_world(b)
+    make_vtconv(b)
     # aliases used as wrappers, created by the owner through the real commands
     Obs.execute = None
     bot.feed(b, ROLES['owner'], NICK, 'aka add vtrun "$1 $*"')
@@ -1428,7 +1492,7 @@ def run(ctx):
                             trusted_base=TRUSTED,
                             assumptions=['Python asserts enabled', 'default reply configuration (supybot.reply.error.noCapability off)',
                                          'single network; channel names use the default chantypes'],
-                            extra={'plugins_loaded': list(b.loaded)}, t0=ctx.t0)
+                            extra=dict(EXTRA_EVIDENCE, plugins_loaded=list(b.loaded)), t0=ctx.t0)
 
 def replay(ctx, path):
     """re-run the case of a replay file on the implementation and print what happens"""
